@@ -275,6 +275,9 @@ func (g *lockGen) plan() *BlockPlan {
 			vid, addr := pickVal()
 			t := pickTok()
 			amt := int64(r.Intn(7))
+			if g.mode == "burst" {
+				amt += int64(r.Intn(8)) // bursts need holdings to draw from
+			}
 			lk.Locks = append(lk.Locks, &goattypes.LockRequest{Validator: addr, Token: project.TokenAddrs[t-1], Amount: big.NewInt(amt)})
 			locks = append(locks, Ev{"v": vid, "t": t, "amt": amt})
 		}
@@ -284,7 +287,7 @@ func (g *lockGen) plan() *BlockPlan {
 		nUnl = 1 + r.Intn(2)
 	}
 	if g.mode == "burst" && rare(4) {
-		nUnl = 9 + r.Intn(14)
+		nUnl = 12 + r.Intn(14)
 		plan.DT = int64(r.Intn(2))
 	}
 	if rare(5) { // boundary-seeking unlock: take a validator's holding of a token with a threshold to just below / exactly at it
@@ -324,6 +327,35 @@ func (g *lockGen) plan() *BlockPlan {
 				}
 			}
 		}
+	}
+	if g.mode == "burst" && nUnl >= 9 {
+		// many small unlocks that really produce queue entries: one unit each, spread over the holdings that exist
+		type hold struct{ vi, ti int }
+		left := map[hold]int64{}
+		var keys []hold
+		for vi, v := range st.Val {
+			if vi == 0 || !v.Exists {
+				continue
+			}
+			for ti := range st.Tokens {
+				if v.Locking[ti] > 0 {
+					left[hold{vi, ti}] = v.Locking[ti]
+					keys = append(keys, hold{vi, ti})
+				}
+			}
+		}
+		for k := 0; k < nUnl && len(keys) > 0; k++ {
+			i := r.Intn(len(keys))
+			hk := keys[i]
+			id := g.id()
+			lk.Unlocks = append(lk.Unlocks, &goattypes.UnlockRequest{Id: uint64(id), Validator: c.KR.Vals[hk.vi].EthAddr(), Recipient: rndAddr(r),
+				Token: project.TokenAddrs[hk.ti], Amount: big.NewInt(1)})
+			unlocks = append(unlocks, Ev{"id": id, "v": hk.vi + 1, "t": hk.ti + 1, "amt": int64(1)})
+			if left[hk]--; left[hk] == 0 {
+				keys = append(keys[:i], keys[i+1:]...)
+			}
+		}
+		nUnl = 0
 	}
 	if nUnl > 0 {
 		for k := nUnl; k > 0; k-- {
